@@ -40,19 +40,20 @@ def calcQ(x):
     theta = torch.linalg.norm(phi, dim=-1, keepdim=True).unsqueeze(-1)
     theta2 = theta**2
     theta4 = theta2**2
-    idx = (theta > torch.finfo(theta.dtype).eps)
+    # the closed forms cancel catastrophically for small angles (error ~ eps / theta): use the series there
+    idx = (theta > 0.05)
     # coef1
     coef1 = torch.zeros_like(theta, requires_grad=False)
     coef1 += idx * torch.nan_to_num((theta - theta.sin()) / (theta2 * theta))
-    coef1 += (~idx) * (1.0 / 6.0 - (1.0 / 120.0) * theta2)
+    coef1 += (~idx) * (1.0 / 6.0 - (1.0 / 120.0) * theta2 + (1.0 / 5040.0) * theta4)
     # coef2
     coef2 = torch.zeros_like(theta, requires_grad=False)
     coef2 += idx * torch.nan_to_num((theta2 + 2 * theta.cos() - 2) / (2 * theta4))
-    coef2 += (~idx) * (1.0 / 24.0 - (1.0 / 720.0) * theta2)
+    coef2 += (~idx) * (1.0 / 24.0 - (1.0 / 720.0) * theta2 + (1.0 / 40320.0) * theta4)
     # coef3
     coef3 = torch.zeros_like(theta, requires_grad=False)
     coef3 += idx * torch.nan_to_num((2 * theta - 3 * theta.sin() + theta * theta.cos()) / (2 * theta4 * theta))
-    coef3 += (~idx) * (1.0 / 120.0 - (1.0 / 2520.0) * theta2)
+    coef3 += (~idx) * (1.0 / 120.0 - (1.0 / 2520.0) * theta2 + (1.0 / 120960.0) * theta4)
     Q = 0.5 * Tau + coef1 * (Phi@Tau + Tau@Phi + Phi@Tau@Phi) + \
         coef2 * (Phi@Phi@Tau + Tau@Phi@Phi - 3*Phi@Tau@Phi) + coef3 * (Phi@Tau@Phi@Phi + Phi@Phi@Tau@Phi)
     return Q
